@@ -103,7 +103,7 @@ func runConcurrent(w *BWorld, ops []BOp, target string, env *bEnv) (*sourcebundl
 			var ds sourcebundle.Diagnostics
 			switch op.Kind {
 			case "ar":
-				ds = b.AddRemoteSource(ctx, mustRemote(op.Pkg, op.Sub), env.finders[op.Finder])
+				ds = b.AddRemoteSource(ctx, w.remote(op.Pkg, op.Sub), env.finders[op.Finder])
 			case "ag":
 				ds = b.AddRegistrySource(ctx, mustRegistry(op.Pkg, op.Sub), allowedSet(op.Allowed), env.finders[op.Finder])
 			case "af":
